@@ -203,6 +203,8 @@ def op_line(op):
         return 'setnstext %d %s %s %s' % (op[1], enc(op[2]), enc(op[3]), op[4])
     if k == 'rawdel':
         return 'rawdel %d' % op[1]
+    if k == 'insmedia':
+        return 'insmedia %d %s %s' % (op[1], ssels_word(op[2]), idx_word(op[3]))
     if k == 'insobj':
         d = dict(op[2])
         w = ','.join('+'.join(resolve_item(d, i) for i in sel) for sel in op[1])
@@ -216,15 +218,15 @@ def sel_named_prefixes(sel):
 
 
 def named_prefixes(op):
-    sels = op[2] if op[0] == 'setsel' else op[1]
+    sels = op[2] if op[0] in ('setsel', 'insmedia') else op[1]
     return [p for s in sels for p in sel_named_prefixes(s)]
 
 
 def mentions_prefix(op):
     if op[0] in ('insns', 'insnstext', 'setns', 'delns', 'setprefix', 'setnstext'):
         return True
-    if op[0] in ('setsel', 'insstyle', 'insobj'):
-        sels = op[2] if op[0] == 'setsel' else op[1]
+    if op[0] in ('setsel', 'insstyle', 'insobj', 'insmedia'):
+        sels = op[2] if op[0] in ('setsel', 'insmedia') else op[1]
         return any(i[0] == 'q' and i[2] != 'N' for s in sels for i in s)
     if op[0] == 'parse':
         return any(r[0] == 'ns' for r in op[2])
@@ -272,6 +274,8 @@ def from_json_op(o):
         return ('parse', tuple((a, b) for a, b in o[1]), [rule(r) for r in o[2]])
     if k == 'setsel':
         return ('setsel', o[1], sels(o[2]))
+    if k == 'insmedia':
+        return ('insmedia', o[1], sels(o[2]), o[3])
     if k == 'insstyle':
         return ('insstyle', sels(o[1]), o[2], o[3])
     if k == 'insobj':
@@ -482,8 +486,17 @@ class HistoryGen:
             return self.gen_idx(n)
 
         k = rng.choices(['insns', 'insnstext', 'setns', 'delns', 'delrule', 'setprefix', 'setsel', 'insstyle',
-                         'insobj', 'parse', 'setnstext', 'rawdel'],
-                        weights=[14, 8, 16, 10, 10, 9, 12, 10, 5, 2, 5, 2])[0]
+                         'insobj', 'parse', 'setnstext', 'rawdel', 'insmedia'],
+                        weights=[14, 8, 16, 10, 10, 9, 12, 10, 5, 2, 5, 2, 4])[0]
+        if k == 'insmedia':
+            md_idx = [i for i, r in enumerate(rules) if r.type == r.MEDIA_RULE]
+            if md_idx:
+                i = rng.choice(md_idx)
+                m = len(rules[i].cssRules)
+                x = rng.random()
+                idx = None if x < 0.4 else (m + 1 if x < 0.47 else rng.randint(0, m))
+                return ('insmedia', i, gen_sels(rng, pick_prefixes(rng, declared), bad=0.04), idx)
+            k = 'insstyle'
         if k == 'setnstext' and ns_idx:
             i = rng.choice(ns_idx)
             u = rules[i].namespaceURI if rng.random() < 0.75 else some_uri() or 'u9'
@@ -700,6 +713,10 @@ def boundary_histories():
               ('setnstext', 1, '', 'e', '000')])
     h.append([('parse', (), [ns('p', 'd', '010'), st(a_p)]), ('setnstext', 0, 'q', 'other', '000'),
               ('setnstext', 0, 'q', 'd', '101'), ('setnstext', 0, '', 'd', '000')])
+    h.append([('parse', (), [ns('', 'd'), ns('p', 'u1'), ('media', [[[T('N', 'a')]]])]),
+              ('insmedia', 2, [[T('N', 'b')], [T(P('p'), 'c')]], None), ('insmedia', 2, [[T(P('zz'), 'c')]], 0),
+              ('insmedia', 2, [[T('E', 'e')]], 0), ('insmedia', 2, [[T('A', 'f')]], 4), ('delns', 'p'),
+              ('delns', '')])
     h.append([('parse', (), base), ('rawdel', 0, 'del')])
     h.append([('parse', (), base), ('rawdel', 0, 'pop')])
     h.append([('parse', (), [ns('p', 'u1'), ns('q', 'u2'), st(a_p)]), ('rawdel', 1, 'del'), ('rawdel', 1, 'pop')])
